@@ -10,6 +10,14 @@ notebooks reuse one `data_functions` dict, one sampler, one model for several co
 For every constructed condition an isolated twin is built from a completely fresh pool (same
 spec, no object shared with anything else).  The twin is evaluated exactly when the real
 condition is, with the same arguments, so both go through the same state sequence.
+
+Sampler OBJECTS are shared, not only their domains: the raw sampler ("base": grid / exponential
+interval / random uniform / data / sequence) is one pool object, its StaticSampler wrapper another,
+and a condition with prod=m uses `base * GridSampler(t-interval, m)` (base as the FIRST factor of
+a product sampler, m partner rows) with the x-t model, while other conditions use the same base
+alone.  torch's global RNG is re-seeded with one number right before the twin's and right before
+the real condition's constructor / forward call of every op, so a (non-static) random sampler draws
+the same points for both and the losses stay comparable.
 """
 import inspect
 
@@ -24,7 +32,8 @@ from torchphysics.problem.conditions import (AdaptiveWeightsCondition, DeepRitzC
                                              SingleModuleCondition)
 from torchphysics.problem.conditions.condition import SquaredError
 from torchphysics.problem.domains import CustomFunctionSet, Interval
-from torchphysics.problem.samplers import DataSampler, GridSampler, PointSampler
+from torchphysics.problem.samplers import (DataSampler, ExponentialIntervalSampler, GridSampler,
+                                           PointSampler, RandomUniformSampler)
 from torchphysics.problem.spaces import FunctionSpace, Points, R1
 from torchphysics.utils import UserFunction
 from torchphysics.utils import grad as tp_grad
@@ -102,6 +111,8 @@ CLASSES = {"pinn": PINNCondition, "mean": MeanCondition, "ritz": DeepRitzConditi
            "periodicA": PeriodicCondition, "periodicB": PeriodicCondition,
            "deeponet": PIDeepONetCondition}
 MAX_CONDS = 6
+PROD_KINDS = ("pinn", "mean", "ritz", "single", "adaptive")
+PROD_FACTORS = ("grid", "exp", "rand")
 _MISSING = object()
 CHANNELS = ["dict", "fn", "sampler", "domain", "parameter", "residual", "model", "fs",
             "defaults"]
@@ -117,9 +128,10 @@ def _pick(*vals):
 _IDX = st.integers(0, 3)
 
 _SAMPLER = st.fixed_dictionaries({
-    "kind": _pick("grid", "grid", "grid", "data", "seq"),
+    "kind": _pick("grid", "grid", "grid", "data", "seq", "exp", "exp", "rand"),
     "dom": st.integers(0, 1),
     "n": st.integers(2, 5),
+    "e": _pick(0.5, 2.0, 3.0),
     "static": _pick(True, True, False),
     "R": _pick(None, None, None, 1, 2, 3)})
 
@@ -162,7 +174,8 @@ _KIND = _pick("pinn", "pinn", "pinn", "mean", "ritz", "single", "adaptive", "ada
 _CONSTRUCT = st.fixed_dictionaries({
     "op": st.just("construct"), "kind": _KIND, "model": st.integers(0, 1), "sampler": _IDX,
     "sampler2": _IDX, "dict": _pick(-1, 0, 0, 0, 1, 2), "param": _pick(-1, -1, 0, 1),
-    "res": st.integers(0, 1), "dom": st.integers(0, 1), "fs": st.integers(0, 1)})
+    "res": st.integers(0, 1), "dom": st.integers(0, 1), "fs": st.integers(0, 1),
+    "prod": _pick(0, 0, 0, 0, 1, 2, 3, 3)})
 
 _EVAL = st.fixed_dictionaries({
     "op": _pick("evaluate", "evaluate", "evaluate_twice", "evaluate", "train_start"), "c": st.integers(0, MAX_CONDS - 1),
@@ -201,9 +214,23 @@ _BASE_POOL = {
     "fss": [{"lo": 0.5, "w": 1.0, "n": 2, "sh": 0.0}, {"lo": 3.0, "w": 2.0, "n": 3, "sh": 0.5}]}
 
 
+# samplers 0-3 non-static grid / exponential (both branches of the exponent) / random, samplers
+# 4-6 static with the same spec as 0-2 (another object: only pinned histories that address the
+# same index share), DeepONets 1 / 2 discretised on the exponential sampler 1 / its static twin 5
+_PROD_POOL = dict(_BASE_POOL, samplers=[
+    {"kind": "grid", "dom": 0, "n": 4, "static": False, "R": None, "e": 2.0},
+    {"kind": "exp", "dom": 0, "n": 5, "static": False, "R": None, "e": 2.0},
+    {"kind": "exp", "dom": 1, "n": 3, "static": False, "R": None, "e": 0.5},
+    {"kind": "rand", "dom": 0, "n": 4, "static": False, "R": None, "e": 2.0},
+    {"kind": "grid", "dom": 0, "n": 4, "static": True, "R": None, "e": 2.0},
+    {"kind": "exp", "dom": 0, "n": 5, "static": True, "R": 2, "e": 2.0},
+    {"kind": "exp", "dom": 1, "n": 3, "static": True, "R": None, "e": 0.5}],
+    dons=[{"disc": 0}, {"disc": 1}, {"disc": 5}])
+
+
 def _c(kind, **kw):
     op = {"op": "construct", "kind": kind, "model": 0, "sampler": 0, "sampler2": 1, "dict": 0,
-          "param": -1, "res": 0, "dom": 0, "fs": 0}
+          "param": -1, "res": 0, "dom": 0, "fs": 0, "prod": 0}
     op.update(kw)
     return op
 
@@ -241,6 +268,33 @@ def extra_cases(tier, seed):
     # one DeepONet, two function sets, evaluated with the default iteration=None
     yield {"pool": _BASE_POOL, "own_dicts": True, "skip_d19": True, "it_mode": "none", "rng": rng,
            "ops": [_c("deeponet", fs=0), _c("deeponet", fs=1), _e(0), _e(1), _e(0)]}
+    # one sampler object as the first factor of a product sampler (m partner rows) in one condition
+    # and alone in another one, both orders of construction and evaluation, every shareable kind
+    for s in range(len(_PROD_POOL["samplers"])):
+        for m in (1, 3):
+            for kind in ("pinn", "mean", "periodicB", "integro", "deeponet"):
+                a, b = _c("pinn", sampler=s, prod=m), _c(kind, sampler=s, sampler2=s)
+                for ops in ([a, b, _e(0), _e(1), _e(0), _e(1)], [b, a, _e(0), _e(1), _e(1), _e(0)],
+                            [a, _e(0), b, _e(1), _e(0)], [b, _e(0), a, _e(1), _e(0)],
+                            [b, a, _e(1), _e(0), _e(1)]):
+                    yield {"pool": _PROD_POOL, "own_dicts": True, "skip_d19": True,
+                           "it_mode": "none", "theme": None, "rng": rng, "ops": ops}
+    # the same with a StaticSampler wrapper of the shared sampler on the other side (its length is
+    # what AdaptiveWeightsCondition / PeriodicCondition / FCBranchNet size their internals with)
+    for s in (4, 5, 6):
+        for kind in ("adaptive", "periodicB", "pinn", "integro"):
+            a, b = _c("pinn", sampler=s, prod=2), _c(kind, sampler=s, sampler2=s, model=1)
+            for ops in ([a, _e(0), b, _e(1), _e(0), _e(1)], [a, b, _e(0), _e(1)],
+                        [b, a, _e(1), _e(0), _e(1)], [_c("adaptive", sampler=s, prod=3), b, _e(0),
+                                                      _e(1), _e(0)]):
+                yield {"pool": _PROD_POOL, "own_dicts": True, "skip_d19": True,
+                       "it_mode": "step", "theme": None, "rng": rng, "ops": ops}
+    # ... and as the discretisation sampler of a DeepONet that is built (lazily) afterwards
+    for s, don in ((0, 0), (1, 1), (5, 2)):
+        a, b = _c("pinn", sampler=s, prod=3), _c("deeponet", sampler=3, model=don)
+        for ops in ([a, _e(0), b, _e(1), _e(0)], [b, a, _e(1), _e(0), _e(1)]):
+            yield {"pool": _PROD_POOL, "own_dicts": True, "skip_d19": True,
+                   "it_mode": "step", "theme": None, "rng": rng, "ops": ops}
 
 
 # =========================================================================================
@@ -275,27 +329,33 @@ def _make_fn(fs):
     return f
 
 
-def _make_res(rs, family, spy):
+def _make_res(rs, family, spy, rows):
+    """`rows` receives the shape of the first argument of every call (the number of points the
+    condition worked on), `spy` the data the periodic residual was given."""
     c, deriv = rs["c"], rs["deriv"]
     W = [0.5, 2.0] if rs["mut"] == "list" else torch.tensor([0.5, 2.0])
     DF, DG, DD = torch.tensor([[0.3]]), torch.tensor([[-0.7]]), torch.tensor([[1.5]])
     if family == "single":
         def res(u, x, f=DF, g=DG, D=DD, w=W):
+            rows.append(list(u.shape))
             out = u - c * x + f * D - w[0] * g * x + w[1]
             if deriv:
                 out = out + 0.25 * tp_grad(u, x)
             return out
     elif family == "hpm":
         def res(x, f=DF, g=DG, D=DD, w=W):
+            rows.append(list(x.shape))
             return c * x * x + f * D - w[0] * g + w[1] * x
     elif family == "integro":
         def res(u, u_integral, x, x_integral, f=DF, g=DG, D=DD, w=W):
+            rows.append(list(u.shape) + list(u_integral.shape))
             n = u.shape[0]
             ui = (u_integral * x_integral).mean(dim=1).reshape(n, -1)
             return (u.reshape(n, -1) - c * ui + f.reshape(-1, 1) * D
                     - w[0] * g.reshape(-1, 1) + w[1] * x.reshape(n, -1))
     elif family == "periodic":
         def res(u_left, u_right, f_left=DF, f_right=DF, g_left=DG, g_right=DG, D=DD, w=W):
+            rows.append(list(u_left.shape))
             spy.append({"f_left": None if f_left is DF else f_left.detach().clone(),
                         "f_right": None if f_right is DF else f_right.detach().clone(),
                         "g_left": None if g_left is DG else g_left.detach().clone(),
@@ -304,6 +364,7 @@ def _make_res(rs, family, spy):
                     - w[1] * g_right)
     else:
         def res(u, x, fin, f=DF, g=DG, D=DD, w=W):
+            rows.append(list(u.shape))
             out = u - c * fin + f * D - w[0] * g * x + w[1]
             if deriv:
                 out = out + 0.25 * tp_grad(u, x)
@@ -338,6 +399,7 @@ class _Pool:
         self.keep_audit = audit
         self.audits = []          # callables -> list of (kind, feature, detail)
         self.spies = {}           # residual index -> list filled by the periodic residual
+        self.rows = {}            # residual index -> shapes seen by the residual, one per call
 
     # ---- index resolution ----------------------------------------------------------------
     def n(self, typ):
@@ -345,14 +407,25 @@ class _Pool:
                 "fn": len(self.p["fns"]), "dict": len(self.p["dicts"]),
                 "param": len(self.p["params"]), "res": len(self.p["res"]),
                 "model": self.p["n_models"], "xtmodel": 1, "don": len(self.p["dons"]),
-                "fs": len(self.p["fss"]), "tdom": 1, "fspace": 1}[typ]
+                "fs": len(self.p["fss"]), "tdom": 1, "fspace": 1,
+                "base": len(self.p["samplers"]), "tsampler": 4}[typ]
 
     def sampler_spec(self, i):
-        s = dict(self.p["samplers"][i % self.n("sampler")])
+        i = i % self.n("sampler")
+        s = dict(self.p["samplers"][i])
         if s["kind"] == "seq":
             s["static"], s["R"] = True, None
+        if s["kind"] == "rand" and i == 0:
+            s["kind"] = "grid"       # sampler #0 is never random (DeepONet discretisation)
         s["dom"] = s["dom"] % self.n("xdom")
+        s.setdefault("e", 2.0)
         return s
+
+    def disc_index(self, don):
+        """The pool sampler a DeepONet's branch net is discretised on: never a random one (a
+        legitimately skipped branch evaluation would keep the points of an earlier draw)."""
+        ok = [j for j in range(self.n("sampler")) if self.sampler_spec(j)["kind"] != "rand"]
+        return ok[self.p["dons"][don % self.n("don")]["disc"] % len(ok)]
 
     def get(self, typ, i=0, sub=None):
         i = i % self.n(typ)
@@ -371,11 +444,27 @@ class _Pool:
         lo, w = self.p["tdom"]
         return Interval(R1("t"), lo, lo + w)
 
+    def _build_tsampler(self, m):
+        """The partner of a product sampler: m grid points in the t-interval."""
+        return GridSampler(self.get("tdom", 0), n_points=max(m, 1))
+
     def _build_sampler(self, i):
+        """What a condition is given: the raw sampler or ONE StaticSampler wrapper of it."""
+        s, smp = self.sampler_spec(i), self.get("base", i)
+        if s["static"]:
+            smp = smp.make_static() if s["R"] is None else smp.make_static(s["R"])
+        return smp
+
+    def _build_base(self, i):
+        """The raw (never static) sampler object #i; also the first factor of product samplers."""
         s = self.sampler_spec(i)
         lo, w = self.p["xdoms"][s["dom"]]
         if s["kind"] == "grid":
             smp = GridSampler(self.get("xdom", s["dom"]), n_points=s["n"])
+        elif s["kind"] == "exp":
+            smp = ExponentialIntervalSampler(self.get("xdom", s["dom"]), s["n"], s["e"])
+        elif s["kind"] == "rand":
+            smp = RandomUniformSampler(self.get("xdom", s["dom"]), n_points=s["n"])
         elif s["kind"] == "seq":
             smp = SeqSampler(lo, w, s["n"])
         else:
@@ -392,8 +481,6 @@ class _Pool:
                     return []
                 self.audits.append(check)
             smp = DataSampler(user)
-        if s["static"]:
-            smp = smp.make_static() if s["R"] is None else smp.make_static(s["R"])
         return smp
 
     def _build_fn(self, i):
@@ -436,7 +523,7 @@ class _Pool:
 
     def _build_res(self, i, family):
         spy = self.spies.setdefault(i, [])
-        fn = _make_res(self.p["res"][i], family, spy)
+        fn = _make_res(self.p["res"][i], family, spy, self.rows.setdefault(i, []))
         if self.keep_audit:
             d0 = fn.__defaults__
             snap = [_snap_default(v) for v in d0]
@@ -467,7 +554,7 @@ class _Pool:
         return FunctionSpace(self.get("xdom", 0), R1("fin"))
 
     def _build_don(self, i):
-        disc = self.get("sampler", self.p["dons"][i]["disc"])
+        disc = self.get("sampler", self.disc_index(i))
         trunk = FCTrunkNet(R1("x"), hidden=(3,))
         branch = FCBranchNet(self.get("fspace"), disc, hidden=(3,))
         return self._randomise(DeepONet(trunk, branch, R1("u"), output_neurons=4), 21 + i)
@@ -563,11 +650,30 @@ def _plan(op, pool, spec, order):
             si = statics[op["sampler"] % len(statics)]
         else:
             kind = "pinn"
+    # product sampler `base #si * GridSampler(t, m)`: the first factor must honour the partner
+    # rows it is given (grid / exponential / random; DataSampler prints, SeqSampler ignores them)
+    p.prod = 0
+    if kind in PROD_KINDS and int(op.get("prod", 0)) > 0:
+        cand = [j for j in range(pool.n("sampler"))
+                if pool.sampler_spec(j)["kind"] in PROD_FACTORS
+                and (kind != "adaptive" or pool.sampler_spec(j)["static"])]
+        if cand:
+            si = si if si in cand else cand[op["sampler"] % len(cand)]
+            p.prod = int(op["prod"])
     p.kind, p.family, p.order = kind, FAMILY[kind], order
     p.sampler = si
     p.sampler2 = op["sampler2"] % pool.n("sampler")
     sspec = pool.sampler_spec(si)
     p.static = sspec["static"] and kind != "periodicA"
+    p.skind = sspec["kind"]
+    # a shared StaticSampler around a random sampler keeps the points of whoever drew first (or
+    # resampled last): only the number of rows is comparable with the isolated twin.  The static
+    # wrapper of a product sampler is the condition's own, so it draws when its twin does.
+    s2 = pool.sampler_spec(p.sampler2)
+    p.free_points = (kind != "periodicA" and not p.prod and p.static and p.skind == "rand") or \
+        (kind == "integro" and s2["static"] and s2["kind"] == "rand")
+    p.repeatable = p.static and not (p.skind == "rand" and sspec["R"] is not None) and not \
+        (kind == "integro" and s2["kind"] == "rand" and not (s2["static"] and s2["R"] is None))
     p.dict = op["dict"] % pool.n("dict") if op["dict"] >= 0 else None
     if kind == "periodicB" and p.static and spec.get("skip_d19"):
         p.dict = None
@@ -575,17 +681,23 @@ def _plan(op, pool, spec, order):
     p.res = op["res"] % pool.n("res")
     p.dom = op["dom"] % pool.n("xdom")
     p.model = op["model"] % (pool.n("don") if kind == "deeponet" else
-                             1 if kind == "periodicB" else pool.n("model"))
+                             1 if kind == "periodicB" or p.prod else pool.n("model"))
     p.fs = op["fs"] % pool.n("fs")
     p.own_dict = bool(spec.get("own_dicts"))
     p.names = [nm for nm, _ in pool.p["dicts"][p.dict]] if p.dict is not None else []
     # ---- keys of the user objects this condition touches -----------------------------------
     uses = {("residual", p.res, p.family)}
     if kind != "periodicA":
-        uses.add(("sampler", si))
+        if p.prod:
+            uses.add(("sampler", "t", p.prod))
+            uses.add(("domain", "t", 0))
+        else:
+            uses.add(("sampler", si))
+        uses.add(("sampler", "base", si))
         uses.add(("domain", "x", sspec["dom"]))
     if kind == "integro":
         uses.add(("sampler", p.sampler2))
+        uses.add(("sampler", "base", p.sampler2))
         uses.add(("domain", "x", pool.sampler_spec(p.sampler2)["dom"]))
     if kind == "periodicA":
         uses.add(("domain", "x", p.dom))
@@ -595,11 +707,12 @@ def _plan(op, pool, spec, order):
     if kind == "deeponet":
         uses.add(("model", "don", p.model))
         uses.add(("fs", p.fs))
-        dsi = pool.p["dons"][p.model]["disc"] % pool.n("sampler")
+        dsi = pool.disc_index(p.model)
         uses.add(("sampler", dsi))
+        uses.add(("sampler", "base", dsi))
         uses.add(("domain", "x", pool.sampler_spec(dsi)["dom"]))
         uses.add(("domain", "x", 0))
-    elif kind == "periodicB":
+    elif kind == "periodicB" or p.prod:
         uses.add(("model", "xt", 0))
     else:
         uses.add(("model", "x", p.model))
@@ -618,8 +731,17 @@ def _plan(op, pool, spec, order):
     return p
 
 
-def _build(p, pool, watch):
-    """Construct the condition described by plan `p` from the objects of `pool`."""
+def _build(p, pool, watch, seed):
+    """Construct the condition described by plan `p` from the objects of `pool`.  All pool objects
+    are fetched (built) first, then torch's RNG is seeded, then the library constructor runs."""
+    args, kw = _build_args(p, pool, watch)
+    torch.manual_seed(seed)
+    if p.kind == "single":
+        return SingleModuleCondition(*args, SquaredError(), reduce_fn=torch.sum, **kw)
+    return CLASSES[p.kind](*args, **kw)
+
+
+def _build_args(p, pool, watch):
     kw = {}
     if p.dict is not None:
         d = pool.get("dict", p.dict)
@@ -631,26 +753,28 @@ def _build(p, pool, watch):
     if p.param is not None:
         kw["parameter"] = pool.get("param", p.param)
     res = pool.get("res", p.res, p.family)
-    name = f"c{p.order}"
+    kw["name"] = f"c{p.order}"
     k = p.kind
     if k == "deeponet":
-        return PIDeepONetCondition(pool.get("don", p.model), pool.get("fs", p.fs),
-                                   pool.get("sampler", p.sampler), res, name=name, **kw)
+        return (pool.get("don", p.model), pool.get("fs", p.fs), pool.get("sampler", p.sampler),
+                res), kw
     if k == "periodicA":
-        return PeriodicCondition(pool.get("model", p.model), pool.get("xdom", p.dom), res,
-                                 name=name, **kw)
+        return (pool.get("model", p.model), pool.get("xdom", p.dom), res), kw
     if k == "periodicB":
-        return PeriodicCondition(pool.get("xtmodel", 0), pool.get("tdom", 0), res,
-                                 non_periodic_sampler=pool.get("sampler", p.sampler),
-                                 name=name, **kw)
-    model, sampler = pool.get("model", p.model), pool.get("sampler", p.sampler)
+        kw["non_periodic_sampler"] = pool.get("sampler", p.sampler)
+        return (pool.get("xtmodel", 0), pool.get("tdom", 0), res), kw
+    if p.prod:
+        # the shared raw sampler as the first factor; the product (and its static wrapper) is new
+        model, sspec = pool.get("xtmodel", 0), pool.sampler_spec(p.sampler)
+        sampler = pool.get("base", p.sampler) * pool.get("tsampler", p.prod)
+        if sspec["static"]:
+            sampler = sampler.make_static() if sspec["R"] is None else \
+                sampler.make_static(sspec["R"])
+    else:
+        model, sampler = pool.get("model", p.model), pool.get("sampler", p.sampler)
     if k == "integro":
-        return IntegroPINNCondition(model, sampler, res, pool.get("sampler", p.sampler2),
-                                    name=name, **kw)
-    if k == "single":
-        return SingleModuleCondition(model, sampler, res, SquaredError(), reduce_fn=torch.sum,
-                                     name=name, **kw)
-    return CLASSES[k](model, sampler, res, name=name, **kw)
+        return (model, sampler, res, pool.get("sampler", p.sampler2)), kw
+    return (model, sampler, res), kw
 
 
 class _Cond:
@@ -741,7 +865,13 @@ def run_case(spec, ctx):
     if spec.get("own_dicts"):
         classes.add("own-dicts")
     reported = set()
-    stats = {"evals": 0, "max_abs_diff": 0.0, "spy_checks": 0, "constructs": 0}
+    stats = {"evals": 0, "max_abs_diff": 0.0, "spy_checks": 0, "constructs": 0, "row_checks": 0,
+             "seeds": 0}
+
+    def next_seed():
+        """One torch seed per library call pair (twin, real): both start from the same RNG state."""
+        stats["seeds"] += 1
+        return (int(spec["rng"]) + 7907 * stats["seeds"]) % (2 ** 31 - 1)
     step = {"counter": 0, "last": {}}
     branch_of = {}             # DeepONet index -> function-set index its branch output belongs to
     used_classes = set()
@@ -770,7 +900,8 @@ def run_case(spec, ctx):
                 once("ctor-default-modified", name, f"after {where}: {detail}")
 
     def iso_feature(p):
-        return p.family + ("-static" if p.static else "") + ("-data" if p.has_data else "")
+        return p.family + ("-static" if p.static else "") + ("-data" if p.has_data else "") + \
+            ("-prod" if p.prod else "")
 
     # ---- construct ------------------------------------------------------------------------
     def construct(op, pos):
@@ -786,13 +917,18 @@ def run_case(spec, ctx):
         classes.add("static" if p.static else "non-static")
         if p.has_data:
             classes.add("static+data" if p.static else "non-static+data")
+        if p.kind != "periodicA":
+            classes.add("sampler:" + p.skind + ("-static" if p.static else ""))
+        if p.prod:
+            classes.add("prod:m>1" if p.prod > 1 else "prod:m=1")
+        seed = next_seed()
         ok, c.twin = guarded(f"op {pos}: construct isolated {p.kind}", iso_feature(p),
-                             lambda: _build(p, c.twin_pool, watch=False))
+                             lambda: _build(p, c.twin_pool, False, seed))
         if not ok:
             classes.add("isolated-crash")
             # keep the side effects of the real construction on the shared objects
             try:
-                _build(p, pool, watch=True)
+                _build(p, pool, True, seed)
             except Exception:   # noqa: BLE001 - already reported on the isolated twin
                 pass
             conds.append(c)
@@ -801,7 +937,7 @@ def run_case(spec, ctx):
         conds.append(c)
         ok, c.real = guarded(f"op {pos}: construct {p.kind} #{order} on shared objects",
                              _attribution(c, conds),
-                             lambda: _build(p, pool, watch=True))
+                             lambda: _build(p, pool, True, seed))
         if not ok:
             c.alive = False
             classes.add("shared-crash")
@@ -817,8 +953,15 @@ def run_case(spec, ctx):
             kw = {"iteration": it}
         else:
             kw = {}
+        seed = next_seed()
+        twin_rows = c.twin_pool.rows.get(p.res, [])
+        n_twin_rows = len(twin_rows)
+
+        def call(cond):
+            torch.manual_seed(seed)
+            return cond(**kw)
         ok, tv = guarded(f"op {pos}: evaluate isolated twin of #{c.order} ({p.kind})",
-                         iso_feature(p), lambda: c.twin(**kw))
+                         iso_feature(p), lambda: call(c.twin))
         if not ok:
             c.alive = False
             classes.add("isolated-crash")
@@ -838,8 +981,10 @@ def run_case(spec, ctx):
         if stale:
             classes.add("deeponet-stale-branch-expected")
         n_spy = len(pool.spies.get(p.res, []))
+        real_rows = pool.rows.get(p.res, [])
+        n_real_rows = len(real_rows)
         ok, rv = guarded(f"op {pos}: evaluate #{c.order} ({p.kind}, iteration={kw.get('iteration')})",
-                         attr, lambda: c.real(**kw))
+                         attr, lambda: call(c.real))
         if will_skip is False:
             branch_of[p.model] = p.fs
         if not ok:
@@ -848,6 +993,15 @@ def run_case(spec, ctx):
             return
         stats["evals"] += 1
         c.n_eval += 1
+        # the number of points the residual saw (comparable for every sampler kind)
+        stats["row_checks"] += 1
+        got_rows, want_rows = real_rows[n_real_rows:], twin_rows[n_twin_rows:]
+        if got_rows != want_rows:
+            # same signature as a deviating loss: one root cause, one signature
+            once("twin-mismatch", attr,
+                 f"op {pos}: the residual of condition #{c.order} ({p.kind}, sampler #{p.sampler} "
+                 f"{p.skind}{'-static' if p.static else ''}, prod={p.prod}) was called with shapes "
+                 f"{got_rows}, the one of its isolated twin with {want_rows}")
         a, b = _scalar(rv), _scalar(tv)
         if a is None or b is None:
             once("loss-shape", p.family,
@@ -857,14 +1011,16 @@ def run_case(spec, ctx):
             return
         if a == a and b == b and abs(a) != float("inf") and abs(b) != float("inf"):
             stats["max_abs_diff"] = max(stats["max_abs_diff"], abs(a - b))
-        if not _close(a, b):
+        if p.free_points:
+            classes.add("rows-only(shared static random sampler)")
+        elif not _close(a, b):
             partners = sorted(o.order for o in conds
                               if o is not c and _shares(c.plan, o.plan) - {"defaults"})
             once("twin-mismatch", attr,
                  f"op {pos}: condition #{c.order} ({p.kind}, {'static' if p.static else 'non-static'} "
                  f"sampler #{p.sampler}, dict {p.dict}, iteration={kw.get('iteration')}) returned "
                  f"{a!r}, its isolated twin {b!r}; shares objects with conditions {partners}")
-        if p.static:
+        if p.repeatable:
             if c.first is None:
                 c.first = a
                 # a first value that already deviates from the twin carries its own explanation
@@ -876,10 +1032,10 @@ def run_case(spec, ctx):
                 once("repeat-mismatch", "static" if why is None else "static|" + why,
                      f"op {pos}: condition #{c.order} ({p.kind}, static sampler) returned {c.first!r} "
                      f"on its first and {a!r} on evaluation {c.n_eval} without an optimisation step")
-        if p.family == "periodic" and p.has_data:
-            check_sides(c, pos, n_spy, "|shared-dict" if attr == "shared-dict" else "")
+        if p.family == "periodic" and p.has_data and not p.free_points:
+            check_sides(c, pos, n_spy, "|shared-dict" if attr == "shared-dict" else "", seed)
 
-    def check_sides(c, pos, n_spy, suffix):
+    def check_sides(c, pos, n_spy, suffix, seed):
         p = c.plan
         spy = pool.spies.get(p.res, [])
         if len(spy) <= n_spy:
@@ -891,8 +1047,12 @@ def run_case(spec, ctx):
             xs = {"left": torch.tensor([[lo]]), "right": torch.tensor([[lo + w]])}
             ts = {"left": None, "right": None}
         else:
+            def fresh_points():     # forward() draws the non periodic points first
+                smp = _Pool(spec).get("sampler", p.sampler)
+                torch.manual_seed(seed)
+                return smp.sample_points().as_tensor
             ok, probe = guarded(f"op {pos}: sample a fresh copy of sampler #{p.sampler}", "probe-sampler",
-                                lambda: _Pool(spec).get("sampler", p.sampler).sample_points().as_tensor)
+                                fresh_points)
             if not ok or not isinstance(probe, torch.Tensor) or probe.dim() != 2:
                 return
             lo, w = pool.p["tdom"]
@@ -987,6 +1147,12 @@ def run_case(spec, ctx):
                 classes.add("share:ctor-defaults")
             if ch and ((a.plan.static and a.plan.has_data) or (b.plan.static and b.plan.has_data)):
                 nontrivial = True
+            for x, y in ((a, b), (b, a)):
+                if x.plan.prod > 1 and ("sampler", "base", x.plan.sampler) in y.plan.uses:
+                    # one sampler object: first factor of a product here, anything there
+                    nontrivial = True
+                    classes.add("share:product-factor|" + ("product" if y.plan.prod else "alone")
+                                + ("-built-first" if y.order < x.order else "-built-later"))
     if stats["spy_checks"]:
         classes.add("periodic-sides-checked")
     if any(c.plan.static and c.n_eval >= 2 for c in conds):
@@ -995,4 +1161,5 @@ def run_case(spec, ctx):
     return {"nontrivial": nontrivial, "classes": sorted(classes),
             "summary": {"conditions": len(conds), "evaluated": len(good),
                         "evaluations": stats["evals"], "spy_checks": stats["spy_checks"],
+                        "row_checks": stats["row_checks"],
                         "max_abs_real_minus_twin": stats["max_abs_diff"]}}
